@@ -71,9 +71,21 @@ def rule_dtarith(crate):
         return out
     n_sites = 0
     # ---------------- split
-    lets = _lets(addsub["body"])
-    whole_calls = [n for n in walk(addsub["body"]) if n.get("k") == "MethodCall" and n["name"] in ("try_seconds", "seconds")]
-    nano_calls = [n for n in walk(addsub["body"]) if n.get("k") == "MethodCall" and n["name"] in ("try_nanoseconds", "nanoseconds")]
+    # the span may be built in the arm itself or in a crate-local helper the arm calls (one level)
+    split_owner, split_body = run, addsub["body"]
+    candidates = [(run, addsub["body"])]
+    for n in walk(addsub["body"]):
+        if n.get("k") in ("MethodCall", "Call"):
+            cb = crate.hir.get(callee(n) or "")
+            if cb is not None and cb is not run:
+                candidates.append((cb, cb["body"]))
+    for (owner_fn, body) in candidates:
+        if any(x.get("k") == "MethodCall" and x["name"] in ("try_seconds", "seconds") for x in walk(body)) and any(x.get("k") == "MethodCall" and x["name"] in ("try_nanoseconds", "nanoseconds") for x in walk(body)):
+            split_owner, split_body = owner_fn, body
+            break
+    lets = _lets(split_body)
+    whole_calls = [n for n in walk(split_body) if n.get("k") == "MethodCall" and n["name"] in ("try_seconds", "seconds")]
+    nano_calls = [n for n in walk(split_body) if n.get("k") == "MethodCall" and n["name"] in ("try_nanoseconds", "nanoseconds")]
     af, al = crate.loc(run, addsub["pat"])
     if len(whole_calls) != 1 or len(nano_calls) != 1:
         out.error("anchor missing: the AddToDateTime arm does not build its span from exactly one seconds(..) and one nanoseconds(..) call (%d, %d)" % (len(whole_calls), len(nano_calls)))
@@ -96,7 +108,7 @@ def rule_dtarith(crate):
             fmode = "trunc"
         else:
             fmode = "unknown"
-        wf, wl = crate.loc(run, whole_calls[0])
+        wf, wl = crate.loc(split_owner, whole_calls[0])
         common = {i for i in (wr & fr) if i in lets and crate.ty(lets[i]["pat"]) == "f64"}
         if not common:
             out.violation("vm:AddToDateTime:split:same-source", wf, wl, "the whole-second part and the nanosecond part of the span are not derived from one common value")
@@ -113,7 +125,8 @@ def rule_dtarith(crate):
     for m in walk(addsub["body"]):
         if m.get("k") == "Match" and str(m.get("src")) == "Normal" and strip_generics(crate.ty(peel_refs(m["scrut"]))) == OP:
             inner = m
-    pops_dt = [n for n in lets.values() if (callee(peel(n["init"])) or "").endswith("Vm::pop_datetime")]
+    arm_lets = _lets(addsub["body"])
+    pops_dt = [n for n in arm_lets.values() if (callee(peel(n["init"])) or "").endswith("Vm::pop_datetime")]
     if inner is None or len(pops_dt) != 1:
         out.error("anchor missing: inner `match op` / single pop_datetime of the AddToDateTime arm")
     else:
@@ -134,7 +147,7 @@ def rule_dtarith(crate):
     # ---------------- diff
     dlets = _lets(diff["body"])
     pops = sorted([n for n in dlets.values() if (callee(peel(n["init"])) or "").endswith("Vm::pop_datetime")], key=lambda n: (n["s"][0], n["s"][1]))
-    since = [n for n in walk(diff["body"]) if n.get("k") == "MethodCall" and n["name"] in ("since", "until")]
+    since = [n for n in walk(diff["body"]) if n.get("k") == "MethodCall" and n["name"] in ("since", "until", "duration_since", "duration_until")]
     df, dl = crate.loc(run, diff["pat"])
     if len(pops) != 2 or len(since) != 1:
         out.error("anchor missing: DiffDateTime arm needs two pop_datetime lets and one since/until call (%d, %d)" % (len(pops), len(since)))
@@ -145,11 +158,28 @@ def rule_dtarith(crate):
         recv = local_of(s["recv"])
         arg = local_of(s["args"][0])
         sf, sl = crate.loc(run, s)
-        good = (s["name"] == "since" and recv == second["id"] and arg == first["id"]) or (s["name"] == "until" and recv == first["id"] and arg == second["id"])
+        good = (s["name"] in ("since", "duration_since") and recv == second["id"] and arg == first["id"]) or (s["name"] in ("until", "duration_until") and recv == first["id"] and arg == second["id"])
         if good:
             out.ok("vm:DiffDateTime:orientation", sf, sl, "difference = (date-time popped last, `%s`) minus (date-time popped first, `%s`)" % (second["name"], first["name"]))
         else:
             out.violation("vm:DiffDateTime:orientation", sf, sl, "the difference is taken in the wrong direction: `%s` (popped first = right operand) must be subtracted from `%s`" % (first["name"], second["name"]))
+    # ---------------- diff precision: the difference reaches the result as FRACTIONAL seconds
+    INT_ACCESSORS = {"as_secs", "as_millis", "as_micros", "as_nanos", "get_seconds", "get_milliseconds", "get_minutes", "get_hours", "whole_seconds", "num_seconds"}
+    FRAC_ACCESSORS = {"total", "as_secs_f64", "as_secs_f32", "as_millis_f64", "as_fractional_seconds"}
+    from_f64 = [n for n in walk(diff["body"]) if n.get("k") == "Call" and (callee(n) or "").endswith("Number::from_f64")]
+    if len(from_f64) == 1:
+        n_sites += 1
+        names, roots = [], set()
+        _chain(from_f64[0]["args"][0], dlets, names, roots)
+        ff, fl = crate.loc(run, from_f64[0])
+        ints = [x for x in names if x in INT_ACCESSORS]
+        fracs = [x for x in names if x in FRAC_ACCESSORS]
+        if ints and not fracs:
+            out.violation("vm:DiffDateTime:precision", ff, fl, "the difference of two date-times is taken through the integer accessor `%s()`: its sub-second part is dropped, so (t + d) - t != d for every d with a fractional number of seconds" % ints[0])
+        elif fracs:
+            out.ok("vm:DiffDateTime:precision", ff, fl, "the difference is converted with the fractional accessor `%s`" % fracs[0])
+        else:
+            out.advisory("vm:DiffDateTime:precision", ff, fl, "unrecognised way of turning the difference into seconds (%s); not decided" % [x for x in names if not x.startswith("bin:")][:6])
     out.analysed = {"sites": n_sites}
     out.floor("sites", n_sites, 5)
     return out
